@@ -472,11 +472,6 @@ class BluePrint:
                     "arguments."
                 )
 
-            # allow the user to input single values instead of (val,)
-            no_of_args = len(self._argslist[position])
-            if not isinstance(value, tuple) and no_of_args == 1:
-                value = (value,)
-
             if isinstance(arg, str):
                 for ii, param in enumerate(sig.parameters):
                     if arg == param:
